@@ -31,7 +31,9 @@ def sh(cmd, **kw):
 
 def build():
     env = dict(os.environ, CARGO_NET_OFFLINE="true", CARGO_TARGET_DIR=TARGET,
-               RUSTFLAGS="--cfg edp_rs_verif -C instrument-coverage")
+               RUSTFLAGS="--cfg edp_rs_verif -C instrument-coverage",
+               # build scripts and proc macros are instrumented too: keep their profiles out of the source trees
+               LLVM_PROFILE_FILE=os.path.join(TARGET, "build-profiles", "%p-%m.profraw"))
     p = sh(["cargo", "+nightly", "build", "--offline", "--bins"], cwd=os.path.join(ROOT, "harness"), env=env)
     if p.returncode:
         print(p.stdout[-3000:])
